@@ -120,6 +120,7 @@ func String(n int) string { return string(Bytes(n)) }
 // vector does not follow the path the solver found.
 func Assume(b bool) {
 	if !b {
+		endCapture()
 		fmt.Println("ZZ-ASSUME-FAIL")
 		os.Exit(4)
 	}
@@ -128,6 +129,7 @@ func Assume(b bool) {
 // Assert states the property.
 func Assert(b bool, msg string) {
 	if !b {
+		endCapture()
 		fmt.Println("ZZ-ASSERT-FAIL: " + msg)
 		os.Exit(3)
 	}
@@ -187,7 +189,47 @@ func ClockAdvance() {
 	}
 }
 
+// CaptureStdout starts (or restarts) recording what the program writes to
+// os.Stdout; Stdout returns what was written since. Under gosym the record is
+// the ghost output trace; natively os.Stdout is pointed at a scratch file.
+var (
+	realStdout = os.Stdout
+	capFile    *os.File
+)
+
+func CaptureStdout() {
+	if capFile != nil {
+		capFile.Close()
+		os.Remove(capFile.Name())
+	}
+	f, err := os.CreateTemp("", "zzcap")
+	if err != nil {
+		fmt.Fprintln(realStdout, "ZZ-REPLAY-ERROR: cannot capture stdout:", err)
+		os.Exit(5)
+	}
+	capFile = f
+	os.Stdout = f
+}
+
+func Stdout() string {
+	if capFile == nil {
+		return ""
+	}
+	data, _ := os.ReadFile(capFile.Name())
+	return string(data)
+}
+
+func endCapture() {
+	if capFile != nil {
+		os.Stdout = realStdout
+		capFile.Close()
+		os.Remove(capFile.Name())
+		capFile = nil
+	}
+}
+
 // Done is called by the replay driver after the harness returned normally.
 func Done() {
+	endCapture()
 	fmt.Println("ZZ-REPLAY-PASS")
 }
